@@ -35,8 +35,10 @@ def tasks(tier, seed):
         for p in (QUICK_PS if tier == 'quick' else THOROUGH_PS)[fn]:
             ms = modes if tier == 'thorough' or len(modes) <= 2 else ['RNE', 'RTP', 'RTZ', 'RTO']
             for rm in ms:
-                ts.append(dict(kind='eft', name='eft/%s/p%d/%s' % (fn, p, rm), fn=fn, p=p, rm=rm, seed=seed,
-                               cost=(p * p * (4 if ar == 3 else 1) * (6 if fn.startswith('classic_2') else 1))))
+                parts = [None] if fn != 'classic_2fma' else [0, 1, 2, 3]      # the factor signs split the longest tasks four ways
+                for part in parts:
+                    ts.append(dict(kind='eft', name='eft/%s/p%d/%s%s' % (fn, p, rm, '' if part is None else '/signs%d' % part), fn=fn, p=p, rm=rm, seed=seed, part=part,
+                                   cost=(p * p * (4 if ar == 3 else 1) * (6 if fn.startswith('classic_2') else 1))))
     for fn in ('split', 'modf', 'frexp', 'ldexp', 'logb'):
         for s in (0, 1):
             for rm in (['RNE', 'RTZ'] if fn == 'ldexp' else ['RNE']):
@@ -180,7 +182,7 @@ def _run_symbolic(task):
         fn = task['fn']; ar, modes, kind, pre = EFT[fn]
         p, rm = task['p'], task['rm']
         ctx = _ctx(kind, p, rm)
-        NB = t['NB'] if not fn.startswith('classic_2') else (1 if fn == 'classic_2fma' or (fn == 'classic_2mul' and p >= 5 and tier == 'quick') else max(1, t['NB'] - 1))
+        NB = t['NB'] if not fn.startswith('classic_2') else ((2 if p == 2 else 1) if fn == 'classic_2fma' else 1 if (fn == 'classic_2mul' and p >= 5 and tier == 'quick') else max(1, t['NB'] - 1))
         expmin = (1 - p) if kind == 'mps' else 0
         n = expmin - 1 if kind == 'mps' else None
         summaries.install()
@@ -201,6 +203,8 @@ def _run_symbolic(task):
                     e.assume(z3.URem(ms[0].t + ss[0].t + z3.BitVecVal(task.get('seed', 0), W), z3.BitVecVal(2 if p < 5 else 6, W)) == 0)
                 ms = [SymInt(z3.BitVecVal(e.choose(m.t), W)) if i < 1 else m for i, m in enumerate(ms)]
                 ss = [SymInt(z3.BitVecVal(e.choose(s_.t), W)) if i < 1 else s_ for i, s_ in enumerate(ss)]
+            if task.get('part') is not None:
+                e.assume(z3.And(ss[0].t == (task['part'] & 1), ss[1].t == (task['part'] >> 1)))
             if fn == 'classic_2fma':
                 # 17 nested roundings: the two factors are enumerated (deterministic choose), the addend stays symbolic
                 if tier == 'quick':
